@@ -13,7 +13,7 @@ sys.path.insert(0, os.path.join(os.path.dirname(os.path.abspath(__file__)), ".."
 import rsx
 
 N = "routee-compass-core/src/model/network/"
-OBLIGATIONS = ["edge_row", "get_edge", "get_vertex", "src_vertex_id", "dst_vertex_id", "edge_triplet", "out_edges_iter", "in_edges_iter", "lemma_all_rows_out", "lemma_all_rows_in"]
+OBLIGATIONS = ["edge_row", "try_from", "lemma_chain_complete", "get_edge", "get_vertex", "src_vertex_id", "dst_vertex_id", "edge_triplet", "out_edges_iter", "in_edges_iter", "lemma_all_rows_out", "lemma_all_rows_in"]
 MUST_FAIL = ["vacuity_probe"]
 
 HEAD = """#![allow(unused_imports, unused_variables, dead_code, unused_mut, unused_parens, unused_assignments)]
@@ -29,7 +29,9 @@ impl core::cmp::PartialEq for EdgeId { fn eq(&self, o: &EdgeId) -> bool { self.0
 #[verifier::external_body] pub proof fn vid_key_model() ensures vstd::std_specs::hash::obeys_key_model::<VertexId>() {}
 #[derive(Copy, Clone)] pub struct Distance(pub f64);
 #[verifier::external_body] pub struct Vertex { _p: u8 }
-pub enum NetworkError { EdgeNotFound(EdgeId), VertexNotFound(VertexId), Other }
+pub enum NetworkError { EdgeNotFound(EdgeId), VertexNotFound(VertexId), DatasetError(String), InternalError(String), Other }
+#[verifier::external_body] pub struct PathBuf { _p: u8 }      // std::path::PathBuf (opaque)
+#[verifier::external_body] pub fn verif_format() -> String { String::new() }   // rule R-format: error text is not modelled
 // CompactOrderedHashMap<EdgeId, VertexId> by its contract (unit c11_container): abstract value map; insert adds / overwrites one key
 #[verifier::external_body] pub struct AdjMap { _p: u8 }
 impl AdjMap {
@@ -118,6 +120,67 @@ pub proof fn lemma_all_rows_in(adjs: Seq<Seq<AdjMap>>, revs: Seq<Seq<AdjMap>>, e
 }
 """
 
+LOADER = """
+// ===== EdgeLoader::try_from as a whole (C15: "every listed edge ...", "the forward and reverse adjacency views always describe the same edge set") =====
+/// one row processed as the row callback's contract (edge_row, verified above) says, with the set of missing vertices threaded through
+pub open spec fn chain_step(adjs: Seq<Seq<AdjMap>>, revs: Seq<Seq<AdjMap>>, ms: Seq<Set<VertexId>>, es: Seq<Edge>, i: int) -> bool {
+    row_post(adjs[i], adjs[i + 1], revs[i], revs[i + 1], ms[i], ms[i + 1], es[i])
+}
+pub open spec fn chain_ok(adjs: Seq<Seq<AdjMap>>, revs: Seq<Seq<AdjMap>>, ms: Seq<Set<VertexId>>, es: Seq<Edge>) -> bool {
+    &&& adjs.len() == es.len() + 1 && revs.len() == es.len() + 1 && ms.len() == es.len() + 1
+    &&& forall|i: int| 0 <= i < es.len() ==> #[trigger] chain_step(adjs, revs, ms, es, i)
+}
+/// the rows `es` were processed one after the other, taking (adj0, rev0, m0) to (adj1, rev1, m1)
+pub open spec fn rows_chain(adj0: Seq<AdjMap>, adj1: Seq<AdjMap>, rev0: Seq<AdjMap>, rev1: Seq<AdjMap>, m0: Set<VertexId>, m1: Set<VertexId>, es: Seq<Edge>) -> bool {
+    exists|adjs: Seq<Seq<AdjMap>>, revs: Seq<Seq<AdjMap>>, ms: Seq<Set<VertexId>>| #[trigger] chain_ok(adjs, revs, ms, es)
+        && adjs[0] == adj0 && adjs[es.len() as int] == adj1 && revs[0] == rev0 && revs[es.len() as int] == rev1 && ms[0] == m0 && ms[es.len() as int] == m1
+}
+// ASSUMED (rule R5-rows): `read_utils::from_csv(&path, true, Some(cb))` reads SOME sequence of rows (rule R-io: any file content, or an error) and calls the row callback
+// once per row, in order, before it returns them; the callback is the closure verified as `edge_row`
+#[verifier::external_body]
+pub fn verif_from_csv_rows(path: &PathBuf, adj: &mut Vec<AdjMap>, rev: &mut Vec<AdjMap>, missing_vertices: &mut HashSet<VertexId>) -> (r: Result<Box<[Edge]>, NetworkError>)
+    ensures r matches Ok(es) ==> rows_chain(old(adj)@, final(adj)@, old(rev)@, final(rev)@, old(missing_vertices)@, final(missing_vertices)@, es@)
+{ unimplemented!() }
+// rule R-vec: `vec![CompactOrderedHashMap::empty(); n]` with a run-time n (assumed: n empty maps)
+#[verifier::external_body] pub fn verif_vec_adj(n: usize) -> (r: Vec<AdjMap>)
+    ensures r@.len() == n, forall|v: int| 0 <= v < n ==> (#[trigger] r@[v])@ == Map::<EdgeId, VertexId>::empty() { unimplemented!() }
+// std: Vec::into_boxed_slice keeps the elements (assumed)
+#[verifier::external_body] pub fn verif_into_boxed_slice(v: Vec<AdjMap>) -> (r: Box<[AdjMap]>) ensures r@ == v@ { v.into_boxed_slice() }
+
+/// if NO vertex was recorded as missing after n rows, then every one of those rows has both end points inside the vertex list, sits in the out-list of its source
+/// and in the in-list of its destination (induction on n: the missing set only grows, a list only gains keys)
+pub proof fn lemma_chain_complete(adjs: Seq<Seq<AdjMap>>, revs: Seq<Seq<AdjMap>>, ms: Seq<Set<VertexId>>, es: Seq<Edge>, n_v: int, i: int, n: int)
+    requires chain_ok(adjs, revs, ms, es), adjs[0].len() == n_v, revs[0].len() == n_v, 0 <= n <= es.len(), ms[n] =~= Set::<VertexId>::empty()
+    ensures adjs[n].len() == n_v, revs[n].len() == n_v,
+            0 <= i < n ==> es[i].src_vertex_id.0 < n_v && es[i].dst_vertex_id.0 < n_v
+                && adjs[n][es[i].src_vertex_id.0 as int]@.contains_key(es[i].edge_id) && revs[n][es[i].dst_vertex_id.0 as int]@.contains_key(es[i].edge_id),
+    decreases n
+{
+    if n > 0 {
+        assert(chain_step(adjs, revs, ms, es, n - 1));
+        let r = es[n - 1];
+        let (s, d) = (r.src_vertex_id.0 as int, r.dst_vertex_id.0 as int);
+        // the missing set only grows: empty after row n-1 as well
+        assert(ms[n - 1] =~= Set::<VertexId>::empty()) by { assert forall|v: VertexId| !(#[trigger] ms[n - 1].contains(v)) by { if ms[n - 1].contains(v) { assert(ms[n].contains(v)); } } }
+        lemma_chain_complete(adjs, revs, ms, es, n_v, i, n - 1);
+        if s >= n_v { assert(ms[n].contains(r.src_vertex_id)); }
+        if d >= n_v { assert(ms[n].contains(r.dst_vertex_id)); }
+        if 0 <= i < n - 1 {
+            let (si, di) = (es[i].src_vertex_id.0 as int, es[i].dst_vertex_id.0 as int);
+            if si == s { assert(adjs[n][si]@ == adjs[n - 1][si]@.insert(r.edge_id, r.dst_vertex_id)); } else { assert(adjs[n][si]@ == adjs[n - 1][si]@); }
+            if di == d { assert(revs[n][di]@ == revs[n - 1][di]@.insert(r.edge_id, r.src_vertex_id)); } else { assert(revs[n][di]@ == revs[n - 1][di]@); }
+        }
+    }
+}
+/// C15 for one listed edge of a loaded network
+pub open spec fn listed_ok(l: EdgeLoader, i: int) -> bool {
+    let e = l.edges@[i];
+    &&& e.src_vertex_id.0 < l.adj@.len() && e.dst_vertex_id.0 < l.rev@.len()
+    &&& l.adj@[e.src_vertex_id.0 as int]@.contains_key(e.edge_id)      // ... is among the out-edges of its source
+    &&& l.rev@[e.dst_vertex_id.0 as int]@.contains_key(e.edge_id)      // ... and among the in-edges of its destination
+}
+"""
+
 GRAPH = """
 pub struct Graph { pub adj: Box<[AdjMap]>, pub rev: Box<[AdjMap]>, pub edges: Box<[Edge]>, pub vertices: Box<[Vertex]> }
 // rule R3-dyn: `Box<dyn Iterator<Item = &'a EdgeId> + 'a>` is represented by an opaque iterator with a ghost sequence of the ids it will yield
@@ -157,6 +220,60 @@ def build(x):
                "    requires vstd::std_specs::hash::obeys_key_model::<VertexId>(),\n"
                "    ensures row_post(old(adj)@, final(adj)@, old(rev)@, final(rev)@, old(missing_vertices)@, final(missing_vertices)@, *edge),\n" + body2 + "\n")
     parts.append(fn_text)
+    # ---- EdgeLoader::try_from as a whole: the callback is edge_row (above), from_csv + callback is one assumed helper ----
+    for nm in ("struct EdgeLoader", "struct EdgeLoaderConfig"):
+        st = x.item_text(N + "edge_loader.rs", nm)
+        st = st.replace("CompactOrderedHashMap<EdgeId, VertexId>", "AdjMap")
+        parts.append(st + "\n")
+    x.note("R6", "struct EdgeLoader: CompactOrderedHashMap<EdgeId, VertexId> written AdjMap (the container by its contract, unit c11_container)")
+    parts.append(LOADER)
+    t2 = x.fn(N + "edge_loader.rs", "impl TryFrom<EdgeLoaderConfig> for EdgeLoader :: fn try_from")
+    t2.rewrite(r"fn try_from\(c: EdgeLoaderConfig\) -> Result<Self, Self::Error>", "pub fn try_from(c: EdgeLoaderConfig) -> Result<EdgeLoader, NetworkError>", 1, 1, rule="R3")
+    t2.rewrite(r"let mut (adj|rev): Vec<CompactOrderedHashMap<EdgeId, VertexId>> =\s*vec!\[CompactOrderedHashMap::empty\(\); c\.n_vertices\];", r"let mut \1: Vec<AdjMap> = verif_vec_adj(c.n_vertices);", 2, 2, rule="R-vec")
+    t2.rewrite(r"let mut pb = Bar::builder\(\).*?\?;", "", 1, 1, flags=re.S, rule="R-progress")
+    x.note("R-progress", "EdgeLoader::try_from: the statement that builds the progress bar is dropped (its only effect on the result is an early Err)")
+    m2 = re.search(r"let cb = Box::new\(", t2.text)
+    if not m2:
+        raise G.Undecided("lost anchor: `let cb = Box::new(` in EdgeLoader::try_from")
+    tk = t2.toks
+    o2 = next(i for i, t in enumerate(tk) if t.a == m2.end() - 1)
+    c2 = rsx.match_close(tk, o2)
+    closure_stmt = t2.text[m2.start():tk[c2].b]
+    t2.rewrite(re.escape(closure_stmt) + r"\s*;", "", 1, 1, rule="R5")
+    t2.rewrite(r"read_utils::from_csv\(&c\.edge_list_csv, true, Some\(cb\)\)\?", "verif_from_csv_rows(&c.edge_list_csv, &mut adj, &mut rev, &mut missing_vertices)?", 1, 1, rule="R5-rows")
+    x.note("R5-rows", "EdgeLoader::try_from: `read_utils::from_csv(&path, true, Some(cb))` written verif_from_csv_rows(&path, &mut adj, &mut rev, &mut missing_vertices): reads ANY rows and processes them in order as edge_row does (assumed helper)")
+    t2.strip_macro_stmts(r"eprintln")
+    t2.replace_macro_calls(r"format", "verif_format()")
+    t2.rewrite(r"\b(adj|rev)\.into_boxed_slice\(\)", r"verif_into_boxed_slice(\1)", 2, 2, rule="R-boxed")
+    t2.name_return("r")
+    t2.add_spec("""        requires vstd::std_specs::hash::obeys_key_model::<VertexId>(),
+        ensures
+            // C15: a load that succeeds exposes, for EVERY listed edge, the edge in the out-list of its source and in the in-list of its destination: the forward
+            // and the reverse view describe the same edge set, the listed one (an edge list naming a vertex outside the vertex list is refused)
+            r matches Ok(l) ==> l.adj@.len() == c.n_vertices && l.rev@.len() == c.n_vertices
+                && forall|i: int| 0 <= i < l.edges@.len() ==> #[trigger] listed_ok(l, i),""")
+    t2.insert_before(r"let edges = verif_from_csv_rows", "        let ghost adj0 = adj@; let ghost rev0 = rev@; let ghost m0 = missing_vertices@;\n        ")
+    t2.insert_before(r"let result = EdgeLoader \{", """        proof {
+            let n = edges@.len() as int;
+            assert(rows_chain(adj0, adj@, rev0, rev@, m0, missing_vertices@, edges@));
+            let (adjs, revs, ms) = choose|adjs: Seq<Seq<AdjMap>>, revs: Seq<Seq<AdjMap>>, ms: Seq<Set<VertexId>>| #[trigger] chain_ok(adjs, revs, ms, edges@)
+                && adjs[0] == adj0 && adjs[n] == adj@ && revs[0] == rev0 && revs[n] == rev@ && ms[0] == m0 && ms[n] == missing_vertices@;
+            // no vertex was recorded as missing (the guard above)
+            if missing_vertices@.len() == 0 { missing_vertices@.lemma_len0_is_empty(); }
+            /*verif:obligation (a load that goes on to succeed has recorded NO missing vertex)*/ assert(ms[n] =~= Set::<VertexId>::empty());
+            assert forall|i: int| 0 <= i < n implies es_listed(adj@, rev@, edges@, i) by { lemma_chain_complete(adjs, revs, ms, edges@, c.n_vertices as int, i, n); }
+            lemma_chain_complete(adjs, revs, ms, edges@, c.n_vertices as int, 0, n);
+        }
+        let ghost adj1 = adj@; let ghost rev1 = rev@;
+        """)
+    t2.insert_before(r"Ok\(result\)", """proof { assert forall|i: int| 0 <= i < result.edges@.len() implies #[trigger] listed_ok(result, i) by { assert(es_listed(adj1, rev1, result.edges@, i)); } }
+        """)
+    parts.append("""pub open spec fn es_listed(adj: Seq<AdjMap>, rev: Seq<AdjMap>, es: Seq<Edge>, i: int) -> bool {
+    let e = es[i];
+    e.src_vertex_id.0 < adj.len() && e.dst_vertex_id.0 < rev.len() && adj[e.src_vertex_id.0 as int]@.contains_key(e.edge_id) && rev[e.dst_vertex_id.0 as int]@.contains_key(e.edge_id)
+}
+impl EdgeLoader {
+""" + t2.text + "\n}\n")
     parts.append(ROWS)
     # ---- Graph lookups ----
     parts.append(GRAPH)
